@@ -1,23 +1,30 @@
 (* C10 driver.
-   T <hexname>:<kind>:<hexdefault>,...                         the flag table of the harness struct (must equal c10_flags)
-   E <vec> <class> <detail> <args> <help 0|1> <fields>         one Parse; vec/args/fields = comma separated hex tokens, "." = empty list *)
+   T <idx> <hexname>:<kind>:<hexdefault>,...                          flag table number idx of the harness (must equal nth idx c10_tables)
+   E <idx> <intsize> <vec> <class> <detail> <args> <help 0|1> <fields> one Parse; vec/args/fields = comma separated hex tokens, "." = empty list *)
 let toks_of s = if s = "." then [] else List.map bytes_of_hex (String.split_on_char ',' s)
 let kind_name = function
   | KBool -> "bool" | KInt -> "int" | KInt64 -> "int64" | KUint -> "uint" | KUint64 -> "uint64"
   | KString -> "string" | KFloat -> "float64" | KDuration -> "duration" | KBytes -> "bytes"
-let table_text () =
-  String.concat "," (List.map (fun ((n, k), d) -> hex_of_bytes n ^ ":" ^ kind_name k ^ ":" ^ hex_of_bytes d) c10_flags)
+let table_text flags =
+  String.concat "," (List.map (fun ((n, k), d) -> hex_of_bytes n ^ ":" ^ kind_name k ^ ":" ^ hex_of_bytes d) flags)
+let tables = Array.of_list c10_tables
 let () =
-  let cases = ref 0 and specfail = ref 0 and mismatch = ref 0 and drift = ref 0 and lenient = ref 0 and table_seen = ref false in
+  let cases = ref 0 and specfail = ref 0 and mismatch = ref 0 and drift = ref 0 and lenient = ref 0 in
+  let seen = Array.make (Array.length tables) false in
   iter_lines Sys.argv.(1) (fun line ->
     match split_ws line with
-    | ["T"; t] ->
-        table_seen := true;
-        if t <> table_text () then begin
-          incr mismatch; Printf.printf "MISMATCH %s expected-table=%s\n" line (table_text ()) end
-    | ["E"; vec; cls; detail; args; help; fields] ->
+    | ["T"; idx; t] ->
+        let i = int_of_string idx in
+        if i < 0 || i >= Array.length tables || t <> table_text tables.(i) then begin
+          incr mismatch; Printf.printf "MISMATCH %s expected-table=%s\n" line (if i >= 0 && i < Array.length tables then table_text tables.(i) else "none") end
+        else seen.(i) <- true
+    | ["E"; idx; isz; vec; cls; detail; args; help; fields] ->
         incr cases;
-        let v = check_case c10_flags (toks_of vec) (n_of_int (int_of_string cls)) (bytes_of_hex detail)
+        let i = int_of_string idx in
+        if i < 0 || i >= Array.length tables || not seen.(i) then begin
+          incr mismatch; Printf.printf "MISMATCH %s no-table\n" line end
+        else begin
+        let v = check_case (n_of_int (int_of_string isz)) tables.(i) (toks_of vec) (n_of_int (int_of_string cls)) (bytes_of_hex detail)
                   (toks_of args) (help = "1") (toks_of fields) in
         if v.v_lenient then incr lenient;
         if not (verdict_ok v) then begin
@@ -25,6 +32,6 @@ let () =
           Printf.printf "SPECFAIL %s class=%b args=%b help=%b fields=%b\n" line v.v_class v.v_args v.v_help v.v_fields end
         else if not v.v_detail then begin
           incr drift; Printf.printf "DRIFT %s\n" line end
+        end
     | _ -> ());
-  if not !table_seen then begin incr mismatch; Printf.printf "MISMATCH no-table-line\n" end;
   Printf.printf "STATS cases=%d specfail=%d mismatch=%d drift=%d lenient=%d\n" !cases !specfail !mismatch !drift !lenient
